@@ -107,10 +107,16 @@ func cfgName(c *service.Config) string {
 
 var epAddr = map[string]string{"a": "10.0.0.1", "b": "10.0.0.2"}
 
+// mkEps: one endpoint per letter; a lower-case letter is a main endpoint, an upper-case one the same address
+// announced as a backup endpoint.
 func mkEps(names string) []*service.Endpoint {
 	var out []*service.Endpoint
 	for _, n := range names {
-		out = append(out, &service.Endpoint{Address: &common.Address{Ip: epAddr[string(n)], Port: 80}})
+		ep := &service.Endpoint{Address: &common.Address{Ip: epAddr[strings.ToLower(string(n))], Port: 80}}
+		if n >= 'A' && n <= 'Z' {
+			ep.Type = service.Endpoint_BACKUP
+		}
+		out = append(out, ep)
 	}
 	return out
 }
@@ -148,6 +154,9 @@ func c08alphabet() []c08op {
 				ops = append(ops, c08op{Kind: "ep", Svc: s, Added: a, Removed: r})
 			}
 		}
+		// the same address announced with the other type: alone (ignored while present), and removed and
+		// re-added in one update (the type changes)
+		ops = append(ops, c08op{Kind: "ep", Svc: s, Added: "A"}, c08op{Kind: "ep", Svc: s, Added: "A", Removed: "a"}, c08op{Kind: "ep", Svc: s, Added: "a", Removed: "a"})
 	}
 	return ops
 }
@@ -183,11 +192,17 @@ func (m c08model) apply(o c08op) {
 		}
 	case "ep":
 		if s != nil {
+			// endpoints are identified by their address: a removal removes whatever type is stored, an
+			// addition of an address that is present is ignored, whatever its type
 			for _, r := range o.Removed {
-				delete(s.eps, string(r))
+				delete(s.eps, strings.ToLower(string(r)))
+				delete(s.eps, strings.ToUpper(string(r)))
 			}
 			for _, a := range o.Added {
-				s.eps[string(a)] = true
+				lo, up := strings.ToLower(string(a)), strings.ToUpper(string(a))
+				if !s.eps[lo] && !s.eps[up] {
+					s.eps[string(a)] = true
+				}
 				s.known = true
 			}
 		}
@@ -211,7 +226,11 @@ func (m c08model) expected() map[string][2]string {
 		if s.dep && (s.cfg == "v1" || s.cfg == "v2") && s.known {
 			var eps []string
 			for e := range s.eps {
-				eps = append(eps, epAddr[e]+":80")
+				if e == strings.ToUpper(e) {
+					eps = append(eps, epAddr[strings.ToLower(e)]+":80(backup)")
+				} else {
+					eps = append(eps, epAddr[e]+":80")
+				}
 			}
 			sort.Strings(eps)
 			out[name] = [2]string{s.cfg, strings.Join(eps, ",")}
@@ -270,7 +289,11 @@ func (w *c08world) running() map[string][2]string {
 		rp := p.(*recProc)
 		var hs []string
 		for _, h := range rp.hosts.All() {
-			hs = append(hs, h.Addr)
+			if h.Type == host.TypeBackup {
+				hs = append(hs, h.Addr+"(backup)")
+			} else {
+				hs = append(hs, h.Addr)
+			}
 		}
 		sort.Strings(hs)
 		out[rp.name] = [2]string{cfgName(rp.cfg), strings.Join(hs, ",")}
@@ -302,7 +325,11 @@ func (w *c08world) judge(m c08model, static bool, last c08op) (sig, detail strin
 			s := m[name]
 			var eps []string
 			for e := range s.eps {
-				eps = append(eps, epAddr[e]+":80")
+				if e == strings.ToUpper(e) {
+					eps = append(eps, epAddr[strings.ToLower(e)]+":80(backup)")
+				} else {
+					eps = append(eps, epAddr[e]+":80")
+				}
 			}
 			sort.Strings(eps)
 			if g[0] != s.lastValid {
@@ -348,7 +375,7 @@ func (w *c08world) judge(m c08model, static bool, last c08op) (sig, detail strin
 		}
 		var eps []string
 		for e := range s.eps {
-			eps = append(eps, epAddr[e])
+			eps = append(eps, epAddr[strings.ToLower(e)]) // (the dump lists addresses only)
 		}
 		sort.Strings(eps)
 		ds := strings.Split(strings.TrimSuffix(d[1], ","), ",")
